@@ -16,6 +16,11 @@ func (k Keeper) EndBlocker(ctx sdk.Context) {
 
 	// NOTE: ignore end of block if coinomics is disabled
 	if !params.EnableCoinomics {
+		// forget the last mint timestamp: the first block after (re-)activation
+		// must not mint for the time minting was off
+		if !k.GetPrevBlockTS(ctx).IsZero() {
+			k.SetPrevBlockTS(ctx, sdk.ZeroInt())
+		}
 		return
 	}
 
